@@ -238,3 +238,49 @@ pub fn emit_wordop(a: &Args, out: &mut Out) {
         out.emit(rec);
     }
 }
+
+/// C25: SourceInfo queries on short strings over an alphabet rich in line ends and
+/// whitespace (exhaustive up to a length) and on random longer strings; every index
+/// up to length + 10.
+pub fn emit_srcinfo(a: &Args, out: &mut Out) {
+    use lc3_ensemble::asm::SourceInfo;
+    use rand::{Rng, SeedableRng};
+    let mut rng = rand::rngs::StdRng::seed_from_u64(a.seed ^ 0x51c);
+    let alpha: [&str; 8] = ["a", " ", "\n", "\r", "\t", "\u{e9}", "\u{a0}", "\u{b}"];
+    let maxlen = a.get_u64("len", if a.thorough() { 6 } else { 4 }) as usize;
+    let nalpha = a.get_u64("alpha", if a.thorough() { 6 } else { 8 }) as usize;
+    let mut strings: Vec<String> = vec![String::new()];
+    let mut frontier: Vec<String> = vec![String::new()];
+    for _ in 0..maxlen {
+        let mut next = vec![];
+        for s in &frontier { for c in &alpha[..nalpha] { next.push(format!("{s}{c}")); } }
+        strings.extend(next.iter().cloned());
+        frontier = next;
+    }
+    let exotic = ["\u{3000}", "\u{2003}", "\u{85}", "\u{1680}", "\u{2028}", "\u{205f}", "\u{1F600}", "x", "\u{c}", "\u{1f}", "\u{200b}"];
+    for _ in 0..a.get_u64("rand", if a.thorough() { 6000 } else { 600 }) {
+        let n = rng.random_range(0..40);
+        let mut s = String::new();
+        for _ in 0..n {
+            if rng.random_range(0..4) == 0 { s.push_str(exotic[rng.random_range(0..exotic.len())]); }
+            else { s.push_str(alpha[rng.random_range(0..alpha.len())]); }
+        }
+        strings.push(s);
+    }
+    for s in &strings {
+        let r = js::guard(|| {
+            let si = SourceInfo::new(s);
+            let n = si.count_lines();
+            let spans: Vec<serde_json::Value> = (0..n + 2).map(|i| match si.line_span(i) { Some(r) => json!([r.start, r.end]), None => json!([-1, -1]) }).collect();
+            let texts: Vec<serde_json::Value> = (0..n + 2).map(|i| match si.read_line(i) { Some(t) => json!([1, js::bytes(t.as_bytes())]), None => json!([0, []]) }).collect();
+            let pos: Vec<serde_json::Value> = (0..=s.len() + 10).map(|i| { let (l, c) = si.get_pos_pair(i); json!([i, l, c]) }).collect();
+            let same = (si.source() == s) as u8;
+            (n, spans, texts, pos, same)
+        });
+        let rec = match r {
+            Err(()) => json!({"ev":"SrcInfo","src":js::bytes(s.as_bytes()),"panic":1,"lines":0,"spans":[],"texts":[],"pos":[],"same":0}),
+            Ok((n, spans, texts, pos, same)) => json!({"ev":"SrcInfo","src":js::bytes(s.as_bytes()),"panic":0,"lines":n,"spans":spans,"texts":texts,"pos":pos,"same":same}),
+        };
+        out.emit(rec);
+    }
+}
